@@ -43,3 +43,10 @@ func unhexs(s string) []byte {
 	}
 	return out
 }
+
+func trunc(b []byte) string {
+	if len(b) > 300 {
+		return string(b[:300]) + "…"
+	}
+	return string(b)
+}
